@@ -1476,10 +1476,11 @@ impl Exec for VirtualSystem {
             A: AsCStrArray,
             E: AsCStrArray,
         {
-            let os_path = UnixStr::from_bytes(path.to_bytes());
+            let os_path = Path::new(UnixStr::from_bytes(path.to_bytes()));
+            let os_path = this.resolve_relative_path(os_path).into_owned();
             let mut state = this.state.borrow_mut();
             let fs = &state.file_system;
-            let file = match fs.get(os_path) {
+            let file = match fs.get(&os_path) {
                 Ok(file) => file,
                 Err(e) => return ready(Err(e)),
             };
